@@ -156,6 +156,22 @@ func r10_1(r *Report, p *Program, entries []syncEntry) {
 				return true
 			}}.Find()
 		r.Check(rule, FK(f)+"[has-finalizer⇒SyncObject]", p.InstrPos(soi), wf == nil, "returns before the finalizer sync only for parents without our finalizer", "a parent that still carries our finalizer can be skipped before finalizer.SyncObject (e.g. because it stopped matching, or the finalize hook was removed): the finalizer is never removed and blocks the parent's deletion; "+pathWhy(wf))
+		// and conversely: the finalizer sync (which may ADD the finalizer), like everything after it, is reached
+		// only for a parent that matches the selector or still carries the finalizer
+		selected := func(l Lit) bool {
+			if strings.Contains(l.Atom, ".doNotMatchLabels)(") && strings.Contains(l.Atom, "GetLabels)(p1)") {
+				return !l.Pos
+			}
+			if strings.Contains(l.Atom, "decoratorSelector.Matches)(") && strings.HasSuffix(l.Atom, ", p1)") {
+				return l.Pos
+			}
+			if strings.HasPrefix(l.Atom, "call(controllerutil.ContainsFinalizer)(p1,") && strings.HasSuffix(l.Atom, ".finalizer.Name)") {
+				return l.Pos
+			}
+			return false
+		}
+		ws := unguarded(f, nil, soi, selected)
+		r.Check(rule, FK(f)+"[SyncObject⇒selected∨has-finalizer]", p.InstrPos(soi), ws == nil, "an object that neither matches the selector nor carries the finalizer is left alone", "an object that neither matches the controller's selector nor carries its finalizer reaches finalizer.SyncObject: it gets the finalizer added and is then treated as a parent; "+pathWhy(ws))
 		// the parent used afterwards is the one SyncObject returned
 		upd := engine.ResultValue(e.SyncObj.Instr, 0)
 		okP := upd != nil && engine.DependsOnValue(e.Manage.Common().Args[2], upd, nil)
